@@ -1199,11 +1199,11 @@ fn main() {
 		let mut rng = Rng::new(a.seed);
 		let thorough = a.tier == "thorough";
 		match prop.as_str() {
-			"C01" => gen_c01(&mut rng, a.cases.unwrap_or(if thorough { 30000 } else { 2500 }), &mut lines),
-			"C02" => gen_c02(&mut rng, a.cases.unwrap_or(if thorough { 15000 } else { 1200 }), &mut lines),
-			"C08" => gen_c08(&mut rng, a.cases.unwrap_or(if thorough { 4000 } else { 300 }), &mut lines),
-			"C07" => gen_c07(&mut rng, a.cases.unwrap_or(if thorough { 1500 } else { 120 }), &mut lines),
-			"C19" => gen_c19(&mut rng, a.cases.unwrap_or(if thorough { 2500 } else { 200 }), &mut lines),
+			"C01" => gen_c01(&mut rng, a.cases.unwrap_or(if thorough { 200000 } else { 2500 }), &mut lines),
+			"C02" => gen_c02(&mut rng, a.cases.unwrap_or(if thorough { 100000 } else { 1200 }), &mut lines),
+			"C08" => gen_c08(&mut rng, a.cases.unwrap_or(if thorough { 20000 } else { 300 }), &mut lines),
+			"C07" => gen_c07(&mut rng, a.cases.unwrap_or(if thorough { 8000 } else { 120 }), &mut lines),
+			"C19" => gen_c19(&mut rng, a.cases.unwrap_or(if thorough { 15000 } else { 200 }), &mut lines),
 			_ => panic!("prop"),
 		}
 	}
